@@ -5,7 +5,7 @@
 cd /verif
 DIRS=${@:-/verif/seeded/*}
 run_one() {
-  d=$1
+  d=$(realpath $1)
   name=$(basename $d)
   checks=$(/venv/bin/python -c "import json,sys;print(' '.join(json.load(open('$d/meta.json')).get('detected_by_quick',[])))")
   W=$(mktemp -d /tmp/regwt.XXXXXX); rmdir $W
